@@ -226,6 +226,7 @@ pub fn harvest(repo: &Path) -> Corpus {
     let template_idents = template_idents(repo);
     crate::gen::set_template_vocab(&template_idents.0, &template_idents.1);
     crate::gen::set_param_words(&param_words(repo));
+    crate::gen::set_param_sites(&param_word_sites(repo));
     Corpus { template_idents, inputs, sites, by_origin }
 }
 
@@ -234,41 +235,72 @@ pub fn harvest(repo: &Path) -> Corpus {
 /// that the generator can give *user* items the very names the generated code uses internally.
 /// String literals the macro compares identifiers against (`ident == "rank"`, `"name" | "rename" =>`,
 /// `path.is_ident("bound")`): very likely names of attribute parameters and traits.
-pub fn param_words(repo: &Path) -> Vec<String> {
-    fn walk(ts: TokenStream, in_is_ident: bool, out: &mut std::collections::BTreeSet<String>) {
-        let toks: Vec<TokenTree> = ts.into_iter().collect();
-        for i in 0..toks.len() {
-            match &toks[i] {
-                TokenTree::Literal(l) => {
-                    let t = l.to_string();
-                    if t.len() >= 3 && t.len() <= 26 && t.starts_with('"') && t.ends_with('"') {
-                        let name = &t[1..t.len() - 1];
-                        if syn::parse_str::<syn::Ident>(name).is_err() {
-                            continue;
-                        }
-                        let prev_eq = i >= 2 && is_punct(&toks[i - 1], '=') && is_punct(&toks[i - 2], '=');
-                        let next_arrow = i + 2 < toks.len() && is_punct(&toks[i + 1], '=') && is_punct(&toks[i + 2], '>');
-                        let bar = (i + 1 < toks.len() && is_punct(&toks[i + 1], '|')) || (i >= 1 && is_punct(&toks[i - 1], '|'));
-                        if prev_eq || next_arrow || bar || in_is_ident {
-                            out.insert(name.to_string());
-                        }
+fn walk_param_words(ts: TokenStream, in_is_ident: bool, out: &mut std::collections::BTreeSet<String>) {
+    let toks: Vec<TokenTree> = ts.into_iter().collect();
+    for i in 0..toks.len() {
+        match &toks[i] {
+            TokenTree::Literal(l) => {
+                let t = l.to_string();
+                if t.len() >= 3 && t.len() <= 26 && t.starts_with('"') && t.ends_with('"') {
+                    let name = &t[1..t.len() - 1];
+                    if syn::parse_str::<syn::Ident>(name).is_err() {
+                        continue;
                     }
-                },
-                TokenTree::Group(g) => {
-                    let is_ident_call = i >= 1 && matches!(&toks[i - 1], TokenTree::Ident(id) if id == "is_ident");
-                    walk(g.stream(), is_ident_call, out);
-                },
-                _ => {},
-            }
+                    let prev_eq = i >= 2 && is_punct(&toks[i - 1], '=') && is_punct(&toks[i - 2], '=');
+                    let next_arrow = i + 2 < toks.len() && is_punct(&toks[i + 1], '=') && is_punct(&toks[i + 2], '>');
+                    let bar = (i + 1 < toks.len() && is_punct(&toks[i + 1], '|')) || (i >= 1 && is_punct(&toks[i - 1], '|'));
+                    if prev_eq || next_arrow || bar || in_is_ident {
+                        out.insert(name.to_string());
+                    }
+                }
+            },
+            TokenTree::Group(g) => {
+                let is_ident_call = i >= 1 && matches!(&toks[i - 1], TokenTree::Ident(id) if id == "is_ident");
+                walk_param_words(g.stream(), is_ident_call, out);
+            },
+            _ => {},
         }
+    }
+}
+
+pub fn param_words(repo: &Path) -> Vec<String> {
+    param_word_sites(repo).into_iter().map(|(w, _)| w).collect::<std::collections::BTreeSet<_>>().into_iter().collect()
+}
+
+/// (word, trait whose handler's source mentions it): the trait is read off the path of the source
+/// file — a directory or file whose name is a derivable trait's name in snake case
+pub fn param_word_sites(repo: &Path) -> Vec<(String, Option<String>)> {
+    fn camel(s: &str) -> String {
+        s.split('_')
+            .map(|p| {
+                let mut c = p.chars();
+                match c.next() {
+                    Some(f) => f.to_uppercase().collect::<String>() + c.as_str(),
+                    None => String::new(),
+                }
+            })
+            .collect()
     }
     let mut files = Vec::new();
     rs_files(&repo.join("src"), &mut files);
     let mut out = std::collections::BTreeSet::new();
     for f in files {
+        let tr = f
+            .strip_prefix(repo)
+            .ok()
+            .and_then(|rel| {
+                rel.components()
+                    .filter_map(|c| c.as_os_str().to_str())
+                    .map(|c| camel(c.trim_end_matches(".rs")))
+                    .find(|c| crate::gen::is_trait_name(c))
+            });
         if let Ok(src) = std::fs::read_to_string(&f) {
             if let Ok(ts) = src.parse::<TokenStream>() {
-                walk(ts, false, &mut out);
+                let mut words = std::collections::BTreeSet::new();
+                walk_param_words(ts, false, &mut words);
+                for w in words {
+                    out.insert((w, tr.clone()));
+                }
             }
         }
     }
